@@ -669,6 +669,54 @@ func engineOracles(c *Ctx, ec *eCase, recs []reqRec) {
 				}
 			}
 		}
+		// ---- C06: a CATCH or CROAK whose flag test fails does nothing: the menu entries declared before and after it in the same
+		// stretch of code (single-HALT node, no move, load or sink in that stretch) are all on the page the stretch ends with
+		// (at most one move in the request: a double move through duplicate selectors - open finding C03-duplicate-selector - runs a
+		// node's code in pieces)
+		if r.x == "ok" && r.f == "ok" && r.cont && len(r.path) > 0 && ec.wf && (prev == nil || (prev.x == "ok" && r.moves <= prev.moves+1)) {
+			code := ec.nodes[r.path[len(r.path)-1]]
+			if is, halted := nodeInstrs(code); halted && haltCount(code) == 1 {
+				calm, signals := true, 0
+				seenSignal := false
+				for _, gi := range is {
+					switch gi.Op {
+					case "MOVE", "INCMP", "MSINK":
+						calm = false
+					case "LOAD", "RELOAD":
+						if seenSignal {
+							calm = false // flags may change between the signal test and the end of the request
+						}
+					case "CATCH", "CROAK":
+						seenSignal = true
+						signals++
+						bit := int(gi.N)
+						if bit/8 >= len(r.flags) {
+							calm = false
+						} else if (r.flags[bit/8]&(1<<uint(bit%8)) != 0) == gi.M {
+							calm = false // it matches
+						}
+					}
+				}
+				if calm && signals > 0 {
+					sep := ec.sep
+					if sep == "" {
+						sep = ":"
+					}
+					lastSignal := -1
+					for k, gi := range is {
+						if gi.Op == "CATCH" || gi.Op == "CROAK" {
+							lastSignal = k
+						}
+					}
+					// the entries declared BEFORE the signal test are the ones a test that acts would take away
+					for k, gi := range is {
+						if k < lastSignal && gi.Op == "MOUT" && !strings.Contains("\n"+string(r.out), "\n"+gi.B+sep) {
+							c.Fail("C06", "nonmatching-signal-acted", fmt.Sprintf("%s: no CATCH/CROAK of %v matches its flag, yet the page lacks the menu entry %q declared in the same code: %q", where, r.path, gi.B, trunc(string(r.out), 120)))
+						}
+					}
+				}
+			}
+		}
 		// ---- C02: on every page but the first of a node that declares MPREV, the previous entry is offered
 		if r.x == "ok" && r.f == "ok" && r.cont && r.idx > 0 && len(r.path) > 0 && ec.wf && ec.out > 0 {
 			// (a node with a second HALT renders its later pages from code that need not declare the entry again)
